@@ -47,6 +47,10 @@ type C20Case struct {
 	// DrainMs > 0: this long after the start the proxy is told to shut down gracefully (drain time 20 s): its listener
 	// closes, the transfers under way go on - and remain subject to the limits until they end
 	DrainMs int `json:"drain_ms,omitempty"`
+	// ShortKiB > 0: the volume is downloaded as many small responses (that many KiB each), every one on a connection of
+	// its own ("Connection: close"), by Conns workers at a time: the limit is the listener's, however the bytes are
+	// spread over connections
+	ShortKiB int `json:"short_kib,omitempty"`
 }
 
 func genC20(t *rapid.T) C20Case {
@@ -78,6 +82,12 @@ func genC20(t *rapid.T) C20Case {
 			c.ReadLimit, c.WriteLimit = rate, other
 		} else {
 			c.WriteLimit, c.ReadLimit = rate, other
+		}
+		if c.TimeoutMs == 0 && c.WindowMs == 0 && rapid.IntRange(0, 4).Draw(t, "short") == 0 {
+			c.ShortKiB = rapid.SampledFrom([]int{8, 32, 60}).Draw(t, "shortkib")
+			c.Dir, c.Conns = "download", rapid.SampledFrom([]int{2, 8}).Draw(t, "workers")
+			c.ReadLimit, c.WriteLimit = rate, other
+			return c
 		}
 		if c.TimeoutMs == 0 && c.WindowMs == 0 && rapid.IntRange(0, 3).Draw(t, "drain") == 0 {
 			c.DrainMs = rapid.SampledFrom([]int{60, 150, 300}).Draw(t, "drainms")
@@ -265,6 +275,9 @@ func runC20once(c C20Case) (fails []vstat.Failure) {
 	per := total / c.Conns
 	host := o.peer.Addr
 
+	if c.ShortKiB > 0 {
+		return runC20Short(c, px, host, ca, total, limit, key)
+	}
 	t0 := time.Now() // before any byte can have passed the limiter
 	type connRes struct {
 		samples []c20Sample
@@ -462,6 +475,106 @@ func runC20once(c C20Case) (fails []vstat.Failure) {
 	return fails
 }
 
+// runC20Short downloads total bytes as responses of ShortKiB each, one connection per response, Conns at a time.
+func runC20Short(c C20Case, px *ProxyInst, host string, ca *CA, total, limit int, key func(string) string) (fails []vstat.Failure) {
+	size := c.ShortKiB << 10
+	n := (total + size - 1) / size
+	var mu sync.Mutex
+	var all []c20Sample
+	var firstErr error
+	next := 0
+	t0 := time.Now()
+	var wg sync.WaitGroup
+	for w := 0; w < c.Conns; w++ {
+		wg.Add(1)
+		go func() {
+			defer wg.Done()
+			buf := make([]byte, 64<<10)
+			for {
+				mu.Lock()
+				i := next
+				next++
+				failed := firstErr != nil
+				mu.Unlock()
+				if i >= n || failed {
+					return
+				}
+				err := func() error {
+					tc, err := Dial(px.Addr)
+					if err != nil {
+						return err
+					}
+					defer tc.Close()
+					tc.SetDeadline(time.Now().Add(40 * time.Second))
+					var conn net.Conn = tc
+					switch c.Stack {
+					case "pp":
+						tc.Write([]byte(ppLine))
+					case "tls":
+						t := tlsClientFor(tc, ca)
+						if err := t.Handshake(); err != nil {
+							return err
+						}
+						conn = t
+					}
+					br := bufio.NewReaderSize(conn, 64<<10)
+					fmt.Fprintf(conn, "GET http://%s/dl?n=%d HTTP/1.1\r\nHost: %s\r\nX-Vid: short\r\nX-Pid: %d\r\nConnection: close\r\n\r\n", host, size, host, i)
+					m, err := ReadResponseHead(br, "GET")
+					if err != nil || m.Status != 200 {
+						return fmt.Errorf("download head: %v", err)
+					}
+					exp := make([]byte, 64<<10)
+					for got := 0; got < size; {
+						k, err := br.Read(buf[:min(len(buf), size-got)])
+						if k > 0 {
+							FillPayload(exp[:k], uint32(i), got)
+							if d := FirstDiff(buf[:k], exp[:k]); d >= 0 {
+								return fmt.Errorf("byte %d of response %d differs", got+d, i)
+							}
+							got += k
+							mu.Lock()
+							all = append(all, c20Sample{time.Now(), k})
+							mu.Unlock()
+						}
+						if err != nil && got < size {
+							return fmt.Errorf("response %d ended after %d of %d bytes: %w", i, got, size, err)
+						}
+					}
+					return nil
+				}()
+				if err != nil {
+					mu.Lock()
+					if firstErr == nil {
+						firstErr = err
+					}
+					mu.Unlock()
+					return
+				}
+			}
+		}()
+	}
+	wg.Wait()
+	if firstErr != nil {
+		return []vstat.Failure{vstat.Failf(key("transfer-failed"), "%d responses of %d KiB on connections of their own: %v (limits read=%d write=%d)", n, c.ShortKiB, firstErr, c.ReadLimit, c.WriteLimit)}
+	}
+	if limit > 0 {
+		sort.Slice(all, func(i, j int) bool { return all[i].at.Before(all[j].at) })
+		sum := 0
+		for _, s := range all {
+			sum += s.n
+			el := s.at.Sub(t0).Seconds()
+			// at most Conns connections are open at any time: that many times the per-connection slack
+			allowed := float64(c20Burst) + float64(limit)*el + float64(c20Slack*c.Conns)
+			if float64(sum) > allowed {
+				fails = append(fails, vstat.Failf(key("limit-exceeded:short-connections"), "%d bytes had passed the proxy %.3f s after the start as responses of %d KiB on connections of their own (%d at a time), the read limit of %d B/s allows %d",
+					sum, el, c.ShortKiB, c.Conns, limit, int(allowed)))
+				break
+			}
+		}
+	}
+	return fails
+}
+
 // c20CounterFlow moves n bytes through the proxy in the given direction with a plain request; nothing about it is judged.
 func c20CounterFlow(proxyAddr, host, stack string, ca *CA, down bool, n int, vid string) {
 	tc, err := Dial(proxyAddr)
@@ -518,6 +631,9 @@ func classifyC20(c C20Case) (bool, string, []string) {
 	}
 	if c.DrainMs > 0 {
 		cls = append(cls, "shutdown-while-transferring")
+	}
+	if c.ShortKiB > 0 {
+		cls = append(cls, "many-short-connections")
 	}
 	if c.WindowMs > 0 {
 		cls = append(cls, "limit-below-one-io-call")
